@@ -58,6 +58,41 @@ func recvNamed(fn *ssa.Function) (name string, ptr bool) {
 func (p *Prog) synthesizeFrontends() []string {
 	var notes []string
 	count := map[string]int{}
+	// *Event methods that hand the event to user code (directly, or by calling one that does)
+	userCode := map[*ssa.Function]bool{}
+	isEventMethod := func(fn *ssa.Function) bool {
+		if fn == nil || fn.Pkg == nil || fn.Pkg.Pkg.Path() != p.ModPath || fn.Signature.Recv() == nil {
+			return false
+		}
+		rn, ptr := recvNamed(fn)
+		return rn == "Event" && ptr
+	}
+	for _, fn := range p.AllFns {
+		if isEventMethod(fn) {
+			switch fn.Name() {
+			case "Func", "Object", "EmbedObject", "Fields":
+				userCode[fn] = true
+			}
+		}
+	}
+	for changed := true; changed; {
+		changed = false
+		for _, fn := range p.AllFns {
+			if !isEventMethod(fn) || userCode[fn] {
+				continue
+			}
+			for _, b := range fn.Blocks {
+				for _, in := range b.Instrs {
+					if cl, ok := in.(ssa.CallInstruction); ok {
+						if cal := cl.Common().StaticCallee(); cal != nil && userCode[cal] && !userCode[fn] {
+							userCode[fn] = true
+							changed = true
+						}
+					}
+				}
+			}
+		}
+	}
 	for _, fn := range p.AllFns {
 		if fn.Pkg == nil || fn.Pkg.Pkg.Path() != p.ModPath || len(fn.Blocks) == 0 || fn.Signature.Recv() == nil {
 			continue
@@ -114,6 +149,16 @@ func (p *Prog) synthesizeFrontends() []string {
 				addClause(&c.Ensures, "ensures", fmt.Sprintf("%s != nil ==> same(%s.buf, old(%s.buf)) || (mode(%s.buf) == OBJ_NEXT && len(%s.buf) > old(len(%s.buf)))", r, r, r, r, r, r), nil)
 			}
 			addClause(&c.Ensures, "ensures", "res == "+r, nil)
+			switch {
+			case fn.Name() == "CallerSkipFrame":
+			case userCode[fn]:
+				// these hand the event (or, for Fields, values that are marshalers) to user code, which may
+				// call CallerSkipFrame itself: nothing is claimed about the offset after them
+			default:
+				// C19: only CallerSkipFrame moves the event's frame offset; a method that left it changed
+				// would shift the call site every later caller hook reports
+				addClause(&c.Ensures, "ensures", fmt.Sprintf("%s != nil ==> %s.skipFrame == old(%s.skipFrame)", r, r, r), []string{"C19"})
+			}
 		case "context":
 			b := r + ".l.context"
 			rb := "res.l.context"
